@@ -348,7 +348,7 @@ def main():
     a.replay_case = None
     if a.replay:
         a.replay_case = json.load(open(a.replay))["case"]
-    level = {"C12": "exploration", "C02": "model_checking", "C10": "model_checking", "C14": "model_checking", "C03": "exploration"}[a.prop]
+    level = {"C12": "exploration", "C02": "model_checking", "C10": "model_checking", "C14": "model_checking", "C03": "exploration", "C17": "exploration"}[a.prop]
     rep = Report(a.prop, level)
     if a.prop == "C02":
         run_c02(a, rep)
@@ -364,6 +364,9 @@ def main():
     elif a.prop == "C03":
         import c03
         c03.run(a, rep)
+    elif a.prop == "C17":
+        import c17
+        c17.run(a, rep)
     else:
         raise SystemExit("unknown property " + a.prop)
     if a.replay:
